@@ -480,7 +480,8 @@ def plugin_case(ctx, index):
             break
     via = "main" if index % 2 == 0 else "import_plugins"
     case = {"cid": dict(model.to_json(), rec_checks=model.rec_checks), "table": table, "via": via}
-    folder = os.path.join(ctx.tmp, "plugins%d" % index)
+    # folder names are free: also characters that mean something to glob patterns
+    folder = os.path.join(ctx.tmp, ["plugins%d", "cutplace_plugins[v%d]", "plug-ins?%d", "my plugins %d"][(index // 2) % 4] % index)
     os.makedirs(folder, exist_ok=True)
     with open(os.path.join(folder, "plug_rec.py"), "w") as f:
         f.write(PLUGIN_SOURCE)
